@@ -132,6 +132,15 @@ class Check:
                     if k % 5 == 4:
                         d[3].remove(d[3].find('roID'))
                     docs_.append(to_text(d))
+                # ... among them a roCreate (the lowest ID) and a roReplace (the highest) with the very same content
+                import copy as _copy
+                nums_ = sorted(ids, key=int)
+                rc_doc = gens.make_ro(['A', 'B'], message_id=nums_[0])
+                rc_doc.find('messageID').text = nums_[0]
+                rr_doc = _copy.deepcopy(rc_doc)
+                rr_doc.find('roCreate').tag = 'roReplace'
+                rr_doc.find('messageID').text = nums_[-1]
+                docs_[0], docs_[-1] = to_text(rc_doc), to_text(rr_doc)
                 for trial in range(6):
                     order = list(range(len(docs_)))
                     rng.shuffle(order)
